@@ -112,7 +112,7 @@ fn main() {
     let label = args.get(1).cloned().unwrap_or_default();
     if !label.contains("chunking_invariant") { mapper_clauses(); return; }
     // streams built from SSE pieces (LF and CRLF variants), cut at every byte position (two chunks) and at every pair of positions for short ones
-    let pieces = ["data: {\"a\":1}", "data: {\"b\":", "data: 2}", "event: x", "data: [DONE]", "data: oops", ": c", "", ""];
+    let pieces = ["data: {\"a\":1}", "data: {\"b\":", "data: 2}", "event: x", "data: [DONE]", "data: oops", ": c", "", "", "data:"];
     let nls = ["\n", "\r\n"];
     let mut streams: Vec<String> = Vec::new();
     for n in 1..=4usize {
@@ -148,6 +148,37 @@ fn main() {
                 }
             }
         }
-        // one provider event per SSE event: every dispatched data block shows up exactly once, in order
+        // one provider event per server-sent event, in order, payload unchanged: the unsplit decoding equals an independent reading of
+        // the stream - lines end with LF / CRLF; `data:` lines (one leading space dropped) accumulate, blank ones included; `event:` names
+        // the event; `:` lines are comments; a blank line dispatches the event if it has at least one data line, payload = the data
+        // lines joined with LF; an event that is not terminated by a blank line when the stream ends is not dispatched.
+        {
+            let mut want: Vec<(String, String, Option<String>)> = Vec::new();
+            let mut data: Vec<String> = Vec::new(); let mut name: Option<String> = None;
+            let mut rest: &str = s.as_str();
+            loop {
+                let (line, more) = match rest.find('\n') { Some(i) => (&rest[..i], Some(&rest[i + 1..])), None => (rest, None) };
+                let terminated = more.is_some();
+                let line = line.strip_suffix('\r').unwrap_or(line);
+                if terminated || !line.is_empty() {
+                    if let Some(v) = line.strip_prefix("event:") { let v = v.trim(); name = if v.is_empty() { None } else { Some(v.to_string()) }; }
+                    else if let Some(v) = line.strip_prefix("data:") { data.push(v.strip_prefix(' ').unwrap_or(v).to_string()); }
+                    else if line.is_empty() && terminated {
+                        if !data.is_empty() {
+                            let raw = data.join("\n");
+                            let kind = if raw == "[DONE]" { "Done" } else if json::from_str_value(&raw).is_ok() { "Event" } else { "InvalidJson" };
+                            want.push((kind.to_string(), raw, if kind == "Done" { None } else { name.clone() }));
+                            data.clear(); name = None;
+                        }
+                    }
+                }
+                match more { Some(m) => rest = m, None => break }
+            }
+            let whole_cmp: Vec<(String, String, Option<String>)> = whole.iter().map(|(k, r, n)| (k.clone(), r.clone(), if k == "Done" { None } else { n.clone() })).collect();
+            if whole_cmp != want {
+                println!("WITNESS {{\"function\": \"SseDecoder::push/finish\", \"stream\": {:?}, \"events_decoded\": {:?}, \"server_sent_events_in_the_stream\": {:?}, \"problem\": \"not exactly one event per server-sent event, in order, with the payload unchanged\"}}", s, whole, want);
+                return;
+            }
+        }
     }
 }
